@@ -159,13 +159,42 @@ HARNESSES += [
       cbmc_flags=['-DVS_CAP=16']),
 ]
 
+# ---- whole-file framing: the real write() of a tiny database, cut at a symbolic position, through the real read_new ----
+_FRAME_TUS = _REC + [_DB + t for t in ('interrogateManifest.cxx', 'interrogateElement.cxx', 'interrogateMakeSeq.cxx', 'interrogateFunction.cxx',
+                                      'interrogateFunctionWrapper.cxx', 'interrogateType.cxx', 'indexRemapper.cxx')]
+_FRAME_SHAPES = {0: ('every section empty', 36, 32), 2: ('one element with a comment (the record before the MakeSeq section), other sections empty', 72, 68)}
+
+def _frame(shape, lo, hi, tiers):
+    what, cap, top = _FRAME_SHAPES[shape]
+    us = dict(_STR)
+    us['vs_same_output.0'] = cap + 2
+    us['_ZL14last_int_tokenPSo.0'] = us['_ZL14last_int_tokenPSo.1'] = cap + 2
+    b = dict(defs=dict(SHAPE=shape, CUT_LO=lo, CUT_HI=hi, CUT_TOP=top), unwind=8, unwindset=us, cap=600)
+    return dict(id='c12_framing_s%d_%d' % (shape, lo), property='C12', src='c12_framing.cxx', entry='harness_c12_framing',
+                tus=_FRAME_TUS if shape else _REC,
+                desc='whole-file framing: InterrogateDatabase::write of a tiny database (%s), cut at any token position in %d..%d, read by '
+                     'the real read_new after the header integers' % (what, lo, hi - 1),
+                domain='database: %s, module definition with library name "l", no hash name, module name "m"; concrete contents (single-digit '
+                       'integers, letters: token index = byte index in the native replay); SYMBOLIC cut position over %d..min(%d, file length) '
+                       '(prefixes and, in the last slice, the whole file; the slices of one shape together cover every prefix)' % (what, lo, hi - 1),
+                oracle='read_new returns true IFF the last integer of the file survived the cut (only the final newline may be missing), so '
+                       'every prefix that lost data is rejected and read() merges nothing; the complete file is accepted, its header, module '
+                       'strings and section sizes are as written and the database read back re-serialises to the same tokens; no crash',
+                bounds={t: b for t in tiers}, tiers=tiers, cbmc_flags=_BYTEWISE + _pool(cap))
+
+# SHAPE=2 (one element with a comment: 66 tokens) did not finish within 400 s even for a slice of 16 cut positions (the record copy made by
+# add_element and the string reads dominate); only the empty database is in the catalogue
+HARNESSES += [_frame(0, 0, 32, ('quick', 'thorough'))]
+
 PROPERTY_INFO = {'C12': {'level': 'model_checking',
          'explanation': 'bounded symbolic execution (CBMC) of the real serialisation code over a token-stream model of iostreams: '
                         'string and vector primitives, output()/input() of every record type, the InterrogateElement version gates '
-                        'against a reference writer kept in the harness, prefixes of a valid record, and the load_latest header logic',
+                        'against a reference writer kept in the harness, prefixes of a valid record, prefixes of a whole (empty) database file through write/read_new, and the load_latest header logic',
          'outside': 'real decimal text (the stream model keeps integers as whole tokens and asserts that they are delimited; a cut '
-                    'inside a number is therefore not explored); whole databases through InterrogateDatabase::write/read_new (file framing, section counts, the record '
-                    'copies made by add_type/add_wrapper; a one-function one-type harness did not finish in 600 s and was dropped); files larger than the bounds; string lengths above LMAX and combinations of string '
+                    'inside a number is therefore not explored); whole NON-EMPTY databases through InterrogateDatabase::write/read_new (the record '
+                    'copies made by add_type/add_wrapper; a one-function one-type harness did not finish in 600 s and was dropped, nor did a '
+                    'one-element database cut at 16 positions in 400 s; the framing itself - header, module strings, the six section counts - '
+                    'is decided on the empty database for every cut position by c12_framing_s0_0); files larger than the bounds; string lengths above LMAX and combinations of string '
                     'lengths other than the listed patterns at record level (the string primitive itself is checked for every length '
                     '0..LMAX with symbolic length); InterrogateType::_flags other than two fixed bit patterns; std::ifstream and the file '
                     'system (Filename::open_read is a stand-in in c12_header); the query interface on top of the loaded database',
